@@ -396,12 +396,22 @@ class FuncGen:
             tbl = [r.randint(0, n - 1) for _ in range(size)]
             inner += [('br_table', tbl, r.randint(0, n - 1))]
             out = []
+            # the target blocks are opened at DIFFERENT operand-stack heights: an operand may be pending between two openings (it is
+            # combined with, or dropped beneath, that block's result after its end), so each target's result lives in its own slot
+            pending = [False] + [r.random() < 0.5 for _ in range(n - 1)]
             for i in range(n):
+                if pending[i]:
+                    out += self.leaf(t)
                 out.append(('block', t))
             out += inner
             for i in range(n):
                 self.labels.pop()
                 out.append(('end',))
+                if pending[n - 1 - i]:
+                    if t in (I32, I64):
+                        out.append(('%s.xor' % t,))
+                    else:
+                        out += [('local.set', self.tmp[t]), ('drop',), ('local.get', self.tmp[t])]
                 if i < n - 1:
                     # modify the carried value between the ends so the landing label is observable
                     out += self.mutate(t, i)
